@@ -293,23 +293,28 @@ class C15(Prop):
         one name leaves the other name on the old inode), a directory holding both, and the same file under two spellings."""
         o = {"width": 88, "list_spacing": "preserve", **{f: False for f in FLAGS}} if case["mode"] == "--inplace" else \
             {"width": 88, "list_spacing": "preserve", "plaintext": False, "semantic": True, "cleanups": True, "smartquotes": True, "ellipses": True}
-        for argv_files in (["CHANGELOG.md", "docs/changes.md", "probe.md"], ["docs/changes.md", "CHANGELOG.md"], ["."], ["probe.md", "./probe.md", "CHANGELOG.md", "docs"]):
+        for argv_files in (["CHANGELOG.md", "docs/changes.md", "probe.md"], ["docs/changes.md", "CHANGELOG.md"], ["."], ["probe.md", "./probe.md", "CHANGELOG.md", "docs"],
+                           ["link.md", "CHANGELOG.md"], ["CHANGELOG.md", "link.md", "probe.md"]):
             d = self.fresh(DOCS)
             os.makedirs(os.path.join(d, "docs"))
             with open(os.path.join(d, "CHANGELOG.md"), "w") as f:
                 f.write(DOCS["second.md"])
             os.link(os.path.join(d, "CHANGELOG.md"), os.path.join(d, "docs", "changes.md"))
+            if "link.md" in argv_files:
+                os.symlink("CHANGELOG.md", os.path.join(d, "link.md"))  # a symbolic link named next to its target
             rc, _, err = self.main([case["mode"]] + (["--nobackup"] if case["mode"] == "--inplace" else []) + list(argv_files), d)
             col.case()
             col.mon("inproc")
             col.distinct("links", case["mode"], tuple(argv_files))
-            named = {"CHANGELOG.md": "second.md", "docs/changes.md": "second.md", "probe.md": "probe.md"}
+            named = {"CHANGELOG.md": "second.md", "docs/changes.md": "second.md", "probe.md": "probe.md", "link.md": "second.md"}
             if argv_files == ["."]:
                 named.update({"second.md": "second.md", "third.md": "third.md"})
             elif "docs" not in argv_files and "docs/changes.md" not in argv_files:
                 named.pop("docs/changes.md")
             for rel, src in named.items():
                 if not any(rel == a or a in (".",) or (a == "docs" and rel.startswith("docs/")) or rel == a.removeprefix("./") for a in argv_files):
+                    continue
+                if not os.path.lexists(os.path.join(d, rel)):
                     continue
                 want = self.expected(DOCS[src], o)
                 got = self.read(d, rel)
